@@ -339,7 +339,7 @@ func c12Menu(thorough bool) (menu []c12Upd) {
 	if thorough {
 		for _, pos := range [][3]uint64{{E - 128, E - 50, E - 49}, {E - 64, E - 20, E - 19}, {E - 40, E - 1, E}, {E + 32, E + 100, E + 101}, {E + 64, E + 130, E + 131}, {E + c12Period + 32, E + c12Period + 96, E + c12Period + 97}} {
 			for _, kind := range []string{"full", "finality", "optimistic"} {
-				for _, part := range []int{1, 300, 342, 512} {
+				for _, part := range []int{1, 341, 342, 512} /* 341 = one below two thirds of 512 */ {
 					mk(kind, pos[0], pos[1], pos[2], part)
 				}
 			}
@@ -347,15 +347,15 @@ func c12Menu(thorough bool) (menu []c12Upd) {
 		return
 	}
 	mk("optimistic", 0, E-40, E-39, 1)
-	mk("optimistic", 0, E-30, E-29, 300)
+	mk("optimistic", 0, E-30, E-29, 341)
 	mk("finality", E-96, E-32, E-31, 342)
-	mk("finality", E-64, E-20, E-19, 300)
+	mk("finality", E-64, E-20, E-19, 341)
 	mk("full", E-128, E-50, E-49, 342)
-	mk("full", E-128, E-50, E-49, 300)
+	mk("full", E-128, E-50, E-49, 341)
 	mk("full", E-64, E-1, E, 512)
 	mk("finality", E+32, E+96, E+97, 342)
 	mk("full", E+32, E+100, E+101, 512)
-	mk("full", E+64, E+130, E+131, 300)
+	mk("full", E+64, E+130, E+131, 341)
 	mk("optimistic", 0, E+140, E+141, 1)
 	mk("optimistic", 0, E+200, E+201, 342)
 	mk("finality", E+c12Period+32, E+c12Period+96, E+c12Period+97, 342)
